@@ -39,7 +39,9 @@ CLASSES = [
 ]
 CLASS_NAMES = ["plain", "dquote", "backslash", "crlf", "nul", "brace", "blank", "multibyte", "punct", "oddity"]
 WHOLE = ["", "{5}", "{5+}", "{0}", "{0+}", "LOGOUT", 'a" "b', 'x"\r\nLOGOUT\r\n"', "a\\", '\\"', "{3+}\r\nabc",
-         "ACTIVE", "{99999999999}", " ", '"', "\\", "\r", "\n", "\r\n", "{", "a{1}", '""', "{1+}\r\n"]
+         "ACTIVE", "{99999999999}", " ", '"', "\\", "\r", "\n", "\r\n", "{", "a{1}", '""', "{1+}\r\n",
+         # values that cannot be encoded at all (lone surrogates): the call has to refuse them, with Error, before writing
+         "\udc80", "a\ud800b"]
 OPS = ["skip", "havespace", "getscript", "putscript", "deletescript", "setactive", "renamescript", "checkscript",
        "putscript", "getscript", "capability", "listscripts", "logout", "reconnect"]
 
@@ -72,6 +74,30 @@ def value(f, label, maxlen=12, earlier=None):
     return f.text(label + ".txt", CLASSES, maxlen, 0)
 
 
+class HugeInt(int):
+    """An int like any other for the library (str() / '%d' go through int's own conversion and hit CPython's digit limit),
+    with a repr short enough for our own traces."""
+
+    def __repr__(self):
+        return "HugeInt(10**5000)"
+
+    __str__ = int.__repr__
+
+
+HUGE = HugeInt(10 ** 5000)
+
+
+def encodable(a):
+    if isinstance(a, str):
+        try:
+            a.encode("utf-8")
+        except UnicodeEncodeError:
+            return False
+    if isinstance(a, HugeInt):
+        return False        # CPython refuses to write such a number in decimal
+    return True
+
+
 def classes_of(vals):
     out = set()
     for v in vals:
@@ -97,6 +123,14 @@ def judge_call(world, srv, meth, args, out, emulated=False):
     conn = world.net.conns[-1] if world.net.conns else None
     pending = srv.pending_input(conn) if conn is not None and conn.state is not None else b""
     info = {"op": meth, "args": [repr(a) for a in args], "written": written}
+    if any(not encodable(a) for a in args):
+        if written:
+            return Failure(PROP, "C08.refuse-after-write", "%s%r has an argument that cannot be encoded, yet %r was written" % (meth, args, written), info)
+        if meth == "checkscript" and out.kind == "exc" and out.exc_type == "NotImplementedError":
+            return None     # refused for another reason, before looking at the argument
+        if not (out.kind == "exc" and out.exc_type == "Error"):
+            return Failure(PROP, "C08.exception", "%s%r has an argument that cannot be encoded: the call %r (Error expected, nothing written)" % (meth, args, out), info)
+        return None
     if out.kind == "exc" and out.exc_type != "Error":
         if not (meth == "checkscript" and out.exc_type == "NotImplementedError"):
             return Failure(PROP, "C08.exception", "%s%r raised %s(%r) (bytes written: %r)" % (
@@ -244,7 +278,7 @@ def run(ch, config, res):
                         continue
                     if meth == "havespace":
                         # the size as an int or as its decimal spelling: either way a number goes on the wire
-                        sz = [0, 1, 1000, 4294967296, 1 << 40, "1000", "0", "00300"][wl.int("size", 8)]
+                        sz = [0, 1, 1000, 4294967296, 1 << 40, "1000", "0", "00300", HUGE][wl.int("size", 9)]
                         args = (value(wl, "name", earlier=used), sz)
                     elif meth in ("getscript", "deletescript", "setactive"):
                         args = (value(wl, "name", earlier=used),)
@@ -271,7 +305,7 @@ def run(ch, config, res):
                     # write next - roll-backs, retries - must be well-formed too)
                     srv.fault_weights = [7, 1, 0, 0, 0, 0, 0, 0]
                     faults_before = world.net.stats.probes.get("sendall_timeout", 0)
-                    used.extend(a for a in args if isinstance(a, str) and len(a) < 200)
+                    used.extend(a for a in args if isinstance(a, str) and len(a) < 200 and encodable(a))
                     if getattr(client, "sock", None) is None:
                         # the client has given up its connection (some do after a failed step): what it does when asked to
                         # talk without one is not this property's business
@@ -314,8 +348,8 @@ def judge_connect(world, srv, o):
     if viol:
         return Failure(PROP, "C08.malformed", "connect wrote bytes the strict decoder rejects: %s %r" % (viol[0][2], viol[0][3]), {})
     verbs = [r.decoded.verb for r in srv.log if r.call_id == o.call_id and r.decoded is not None]
-    if any(v not in (b"STARTTLS", b"AUTHENTICATE", b"CAPABILITY", b"NOOP") for v in verbs):
-        return Failure(PROP, "C08.verb", "connect put %r on the wire (only STARTTLS / AUTHENTICATE / CAPABILITY / NOOP belong to a handshake)" % (verbs,), {})
+    if any(v not in (b"STARTTLS", b"AUTHENTICATE", b"CAPABILITY", b"NOOP", b"LOGOUT") for v in verbs):
+        return Failure(PROP, "C08.verb", "connect put %r on the wire (only STARTTLS / AUTHENTICATE / CAPABILITY / NOOP, and a LOGOUT on the way out, belong to a handshake)" % (verbs,), {})
     return None
 
 
